@@ -17,14 +17,33 @@ import Mathlib.Algebra.Order.Field.Basic
 
 namespace PorepyVerif.C33
 
-/-- weight contributed by the pair `(c, d)`: the reported length, 0 if the pair is not reported -/
-def ov (c d : Cell) : Rat := (pairOverlap c d).getD 0
+/-- weight contributed by the pair `(c, d)`: the reported weight, 0 if the pair is not reported -/
+def ov (f : Cell → Cell → Option Rat) (c d : Cell) : Rat := (f c d).getD 0
+
+/-- the exact pair function (no "end to end" tolerance): reported length of the common part -/
+def pairOverlapX (c d : Cell) : Option Rat :=
+  let max1 := rmax c.1 c.2
+  let min1 := rmin c.1 c.2
+  let max2 := rmax d.1 d.2
+  let min2 := rmin d.1 d.2
+  if max1 < min2 then none
+  else if max2 < min1 then none
+  else
+    match isort [c.1, c.2, d.1, d.2] with
+    | [_, x, y, _] => some (dist x y)
+    | _ => none
+
+/-- strictly increasing node list -/
+def strictInc : List Rat → Bool
+  | [] => true
+  | [_] => true
+  | x :: y :: l => decide (x < y) && strictInc (y :: l)
 
 /-! ### 1. one pair of cells -/
 
 theorem ov_eq (s1 e1 s2 e2 : Rat) (h1 : s1 ≤ e1) (h2 : s2 ≤ e2) :
-    ov (s1, e1) (s2, e2) = rmax 0 (rmin e1 e2 - rmax s1 s2) := by
-  unfold ov pairOverlap
+    ov pairOverlapX (s1, e1) (s2, e2) = rmax 0 (rmin e1 e2 - rmax s1 s2) := by
+  unfold ov pairOverlapX
   simp only [isort, insertS, rmax, rmin, dist, if_pos h1, if_pos h2]
   by_cases a1 : e1 < s2
   · rw [if_pos a1]; simp only [Option.getD_none]; split_ifs <;> linarith
@@ -41,30 +60,24 @@ theorem ov_eq (s1 e1 s2 e2 : Rat) (h1 : s1 ≤ e1) (h2 : s2 ≤ e2) :
 theorem dist_nonneg (a b : Rat) : 0 ≤ dist a b := by
   unfold dist; split_ifs <;> linarith
 
-theorem pairOverlap_nonneg (c d : Cell) (w : Rat) (h : pairOverlap c d = some w) : 0 ≤ w := by
-  unfold pairOverlap at h
+theorem pairOverlapX_nonneg (c d : Cell) (w : Rat) (h : pairOverlapX c d = some w) : 0 ≤ w := by
+  unfold pairOverlapX at h
   simp only at h
   split_ifs at h
   split at h
   · cases h; exact dist_nonneg _ _
   · cases h
 
-theorem ov_nonneg (c d : Cell) : 0 ≤ ov c d := by
-  unfold ov
-  cases h : pairOverlap c d with
-  | none => simp
-  | some w => simpa using pairOverlap_nonneg c d w h
-
 /-- clamp `x` to the cell `[s, e]` -/
 def clip (s e x : Rat) : Rat := rmin (rmax x s) e
 
 theorem ov_clip (s e p q : Rat) (h1 : s ≤ e) (h2 : p ≤ q) :
-    ov (s, e) (p, q) = clip s e q - clip s e p := by
+    ov pairOverlapX (s, e) (p, q) = clip s e q - clip s e p := by
   rw [ov_eq s e p q h1 h2]
   unfold clip rmax rmin
   split_ifs <;> linarith
 
-theorem ov_symm (c d : Cell) (hc : c.1 ≤ c.2) (hd : d.1 ≤ d.2) : ov c d = ov d c := by
+theorem ov_symm (c d : Cell) (hc : c.1 ≤ c.2) (hd : d.1 ≤ d.2) : ov pairOverlapX c d = ov pairOverlapX d c := by
   obtain ⟨s1, e1⟩ := c
   obtain ⟨s2, e2⟩ := d
   rw [ov_eq s1 e1 s2 e2 hc hd, ov_eq s2 e2 s1 e1 hd hc]
@@ -79,15 +92,16 @@ theorem clip_hi (s e x : Rat) (h : s ≤ e) (hx : e ≤ x) : clip s e x = e := b
 
 /-! ### 2. one cell against a sorted tessellation: telescoping sum -/
 
-/-- `Σ_{d ∈ ds} ov c d` -/
-def sumOv (c : Cell) : List Cell → Rat
+/-- `Σ_{d ∈ ds} ov f c d` -/
+def sumOv (f : Cell → Cell → Option Rat) (c : Cell) : List Cell → Rat
   | [] => 0
-  | d :: ds => ov c d + sumOv c ds
+  | d :: ds => ov f c d + sumOv f c ds
 
-/-- `Σ_{c ∈ cs} ov c d` -/
-def sumOvL (d : Cell) : List Cell → Rat
+/-- `Σ_{c ∈ cs} ov f c d` -/
+def sumOvL (f : Cell → Cell → Option Rat) (d : Cell) : List Cell → Rat
   | [] => 0
-  | c :: cs => ov c d + sumOvL d cs
+  | c :: cs => ov f c d + sumOvL f d cs
+
 
 /-- last element of `x :: l` -/
 def lastOr (x : Rat) : List Rat → Rat
@@ -100,7 +114,7 @@ theorem strictInc_cons2 (x y : Rat) (l : List Rat) :
 
 theorem sumOv_cells (s e : Rat) (h : s ≤ e) (l : List Rat) (x : Rat)
     (hinc : strictInc (x :: l) = true) :
-    sumOv (s, e) (cells (x :: l)) = clip s e (lastOr x l) - clip s e x := by
+    sumOv pairOverlapX (s, e) (cells (x :: l)) = clip s e (lastOr x l) - clip s e x := by
   induction l generalizing x with
   | nil => simp [cells, sumOv, lastOr]
   | cons y l ih =>
@@ -131,12 +145,12 @@ theorem cells_bounds (l : List Rat) (x : Rat) (hinc : strictInc (x :: l) = true)
 /-- a cell inside `[b_0, b_n]` is covered exactly by the cells of `b` -/
 theorem sumOv_cover (c : Cell) (l : List Rat) (x : Rat) (hinc : strictInc (x :: l) = true)
     (hc : c.1 ≤ c.2) (hlo : x ≤ c.1) (hhi : c.2 ≤ lastOr x l) :
-    sumOv c (cells (x :: l)) = c.2 - c.1 := by
+    sumOv pairOverlapX c (cells (x :: l)) = c.2 - c.1 := by
   obtain ⟨s, e⟩ := c
   rw [sumOv_cells s e hc l x hinc, clip_hi s e _ hc hhi, clip_lo s e _ hc hlo]
 
 theorem sumOvL_eq_sumOv (d : Cell) (hd : d.1 ≤ d.2) (cs : List Cell)
-    (hcs : ∀ c ∈ cs, c.1 ≤ c.2) : sumOvL d cs = sumOv d cs := by
+    (hcs : ∀ c ∈ cs, c.1 ≤ c.2) : sumOvL pairOverlapX d cs = sumOv pairOverlapX d cs := by
   induction cs with
   | nil => rfl
   | cons c cs ih =>
@@ -169,13 +183,14 @@ theorem entry_append (A B : List Triple) (i j : Nat) :
   | nil => simp [entry]
   | cons t A ih => simp only [List.cons_append, entry, ih]; ring
 
-theorem rowTess_bounds (i : Nat) (c : Cell) (ds : List Cell) (j0 : Nat) (t : Triple)
-    (ht : t ∈ rowTess i c j0 ds) : t.1 = i ∧ j0 ≤ t.2.1 ∧ t.2.1 < j0 + ds.length ∧ 0 ≤ t.2.2 := by
+theorem rowTess_bounds (f : Cell → Cell → Option Rat) (hf : ∀ c d w, f c d = some w → 0 ≤ w)
+    (i : Nat) (c : Cell) (ds : List Cell) (j0 : Nat) (t : Triple)
+    (ht : t ∈ rowTess f i c j0 ds) : t.1 = i ∧ j0 ≤ t.2.1 ∧ t.2.1 < j0 + ds.length ∧ 0 ≤ t.2.2 := by
   induction ds generalizing j0 with
   | nil => simp [rowTess] at ht
   | cons d ds ih =>
     unfold rowTess at ht
-    cases h : pairOverlap c d with
+    cases h : f c d with
     | none =>
       rw [h] at ht
       obtain ⟨h1, h2, h3, h4⟩ := ih (j0 + 1) ht
@@ -185,12 +200,13 @@ theorem rowTess_bounds (i : Nat) (c : Cell) (ds : List Cell) (j0 : Nat) (t : Tri
       rw [h] at ht
       simp only [List.mem_cons] at ht
       rcases ht with rfl | ht
-      · exact ⟨rfl, le_refl _, by simp, pairOverlap_nonneg c d w h⟩
+      · exact ⟨rfl, le_refl _, by simp, hf c d w h⟩
       · obtain ⟨h1, h2, h3, h4⟩ := ih (j0 + 1) ht
         simp only [List.length_cons]
         exact ⟨h1, by omega, by omega, h4⟩
 
-theorem tess_bounds (cs ds : List Cell) (k : Nat) (t : Triple) (ht : t ∈ tessFrom k cs ds) :
+theorem tess_bounds (f : Cell → Cell → Option Rat) (hf : ∀ c d w, f c d = some w → 0 ≤ w)
+    (cs ds : List Cell) (k : Nat) (t : Triple) (ht : t ∈ tessFrom f k cs ds) :
     k ≤ t.1 ∧ t.1 < k + cs.length ∧ t.2.1 < ds.length ∧ 0 ≤ t.2.2 := by
   induction cs generalizing k with
   | nil => simp [tessFrom] at ht
@@ -198,35 +214,35 @@ theorem tess_bounds (cs ds : List Cell) (k : Nat) (t : Triple) (ht : t ∈ tessF
     simp only [tessFrom, List.mem_append] at ht
     simp only [List.length_cons]
     rcases ht with ht | ht
-    · obtain ⟨h1, _, h3, h4⟩ := rowTess_bounds k c ds 0 t ht
+    · obtain ⟨h1, _, h3, h4⟩ := rowTess_bounds f hf k c ds 0 t ht
       exact ⟨by omega, by omega, by omega, h4⟩
     · obtain ⟨h1, h2, h3, h4⟩ := ih (k + 1) ht
       exact ⟨by omega, by omega, h3, h4⟩
 
-/-- the weights a row of the loop reports for its own cell add up to `Σ_d ov c d` -/
-theorem rowSum_rowTess (i : Nat) (c : Cell) (ds : List Cell) (j0 i' : Nat) :
-    rowSum (rowTess i c j0 ds) i' = if i = i' then sumOv c ds else 0 := by
+/-- the weights a row of the loop reports for its own cell add up to `Σ_d ov f c d` -/
+theorem rowSum_rowTess (f : Cell → Cell → Option Rat) (i : Nat) (c : Cell) (ds : List Cell) (j0 i' : Nat) :
+    rowSum (rowTess f i c j0 ds) i' = if i = i' then sumOv f c ds else 0 := by
   induction ds generalizing j0 with
   | nil => simp [rowTess, rowSum, sumOv]
   | cons d ds ih =>
     unfold rowTess
-    cases h : pairOverlap c d with
+    cases h : f c d with
     | none =>
       simp only [ih (j0 + 1), sumOv, ov, h, Option.getD_none, zero_add]
     | some w =>
       simp only [rowSum, ih (j0 + 1), sumOv, ov, h, Option.getD_some]
       split_ifs <;> ring
 
-theorem rowSum_tessFrom_lt (cs ds : List Cell) (k i : Nat) (h : i < k) :
-    rowSum (tessFrom k cs ds) i = 0 := by
+theorem rowSum_tessFrom_lt (f : Cell → Cell → Option Rat) (cs ds : List Cell) (k i : Nat) (h : i < k) :
+    rowSum (tessFrom f k cs ds) i = 0 := by
   induction cs generalizing k with
   | nil => simp [tessFrom, rowSum]
   | cons c cs ih =>
     simp only [tessFrom, rowSum_append, rowSum_rowTess, ih (k + 1) (by omega)]
     rw [if_neg (by omega)]; ring
 
-theorem rowSum_tessFrom (cs ds : List Cell) (k i : Nat) (c : Cell) (hc : cs[i]? = some c) :
-    rowSum (tessFrom k cs ds) (k + i) = sumOv c ds := by
+theorem rowSum_tessFrom (f : Cell → Cell → Option Rat) (cs ds : List Cell) (k i : Nat) (c : Cell) (hc : cs[i]? = some c) :
+    rowSum (tessFrom f k cs ds) (k + i) = sumOv f c ds := by
   induction cs generalizing k i with
   | nil => simp at hc
   | cons c0 cs ih =>
@@ -235,26 +251,26 @@ theorem rowSum_tessFrom (cs ds : List Cell) (k i : Nat) (c : Cell) (hc : cs[i]? 
     | zero =>
       simp only [List.getElem?_cons_zero, Option.some.injEq] at hc
       subst hc
-      rw [if_pos (by omega), rowSum_tessFrom_lt cs ds (k + 1) (k + 0) (by omega)]; ring
+      rw [if_pos (by omega), rowSum_tessFrom_lt f cs ds (k + 1) (k + 0) (by omega)]; ring
     | succ i =>
       simp only [List.getElem?_cons_succ] at hc
       have := ih (k + 1) i hc
       rw [if_neg (by omega), show k + (i + 1) = k + 1 + i by omega, this]; ring
 
-theorem colSum_rowTess_lt (i : Nat) (c : Cell) (ds : List Cell) (j0 j : Nat) (h : j < j0) :
-    colSum (rowTess i c j0 ds) j = 0 := by
+theorem colSum_rowTess_lt (f : Cell → Cell → Option Rat) (i : Nat) (c : Cell) (ds : List Cell) (j0 j : Nat) (h : j < j0) :
+    colSum (rowTess f i c j0 ds) j = 0 := by
   induction ds generalizing j0 with
   | nil => simp [rowTess, colSum]
   | cons d ds ih =>
     unfold rowTess
-    cases hp : pairOverlap c d with
+    cases hp : f c d with
     | none => exact ih (j0 + 1) (by omega)
     | some w =>
       simp only [colSum, ih (j0 + 1) (by omega)]
       rw [if_neg (by omega)]; ring
 
-theorem colSum_rowTess (i : Nat) (c : Cell) (ds : List Cell) (j0 j : Nat) (d : Cell)
-    (hd : ds[j]? = some d) : colSum (rowTess i c j0 ds) (j0 + j) = ov c d := by
+theorem colSum_rowTess (f : Cell → Cell → Option Rat) (i : Nat) (c : Cell) (ds : List Cell) (j0 j : Nat) (d : Cell)
+    (hd : ds[j]? = some d) : colSum (rowTess f i c j0 ds) (j0 + j) = ov f c d := by
   induction ds generalizing j0 j with
   | nil => simp at hd
   | cons d0 ds ih =>
@@ -263,59 +279,59 @@ theorem colSum_rowTess (i : Nat) (c : Cell) (ds : List Cell) (j0 j : Nat) (d : C
     | zero =>
       simp only [List.getElem?_cons_zero, Option.some.injEq] at hd
       subst hd
-      cases hp : pairOverlap c d0 with
+      cases hp : f c d0 with
       | none =>
         simp only [ov, hp, Option.getD_none]
-        exact colSum_rowTess_lt i c ds (j0 + 1) (j0 + 0) (by omega)
+        exact colSum_rowTess_lt f i c ds (j0 + 1) (j0 + 0) (by omega)
       | some w =>
         simp only [colSum, ov, hp, Option.getD_some]
-        rw [if_pos (by omega), colSum_rowTess_lt i c ds (j0 + 1) (j0 + 0) (by omega)]; ring
+        rw [if_pos (by omega), colSum_rowTess_lt f i c ds (j0 + 1) (j0 + 0) (by omega)]; ring
     | succ j =>
       simp only [List.getElem?_cons_succ] at hd
       have := ih (j0 + 1) j hd
       rw [show j0 + 1 + j = j0 + (j + 1) by omega] at this
-      cases hp : pairOverlap c d0 with
+      cases hp : f c d0 with
       | none => exact this
       | some w =>
         simp only [colSum, this]
         rw [if_neg (by omega)]; ring
 
-theorem colSum_tessFrom (cs ds : List Cell) (k j : Nat) (d : Cell) (hd : ds[j]? = some d) :
-    colSum (tessFrom k cs ds) j = sumOvL d cs := by
+theorem colSum_tessFrom (f : Cell → Cell → Option Rat) (cs ds : List Cell) (k j : Nat) (d : Cell) (hd : ds[j]? = some d) :
+    colSum (tessFrom f k cs ds) j = sumOvL f d cs := by
   induction cs generalizing k with
   | nil => simp [tessFrom, colSum, sumOvL]
   | cons c cs ih =>
     simp only [tessFrom, colSum_append, sumOvL, ih (k + 1)]
-    have := colSum_rowTess k c ds 0 j d hd
+    have := colSum_rowTess f k c ds 0 j d hd
     rw [Nat.zero_add] at this
     rw [this]
 
-theorem entry_rowTess_lt (i : Nat) (c : Cell) (ds : List Cell) (j0 i' j : Nat) (h : j < j0) :
-    entry (rowTess i c j0 ds) i' j = 0 := by
+theorem entry_rowTess_lt (f : Cell → Cell → Option Rat) (i : Nat) (c : Cell) (ds : List Cell) (j0 i' j : Nat) (h : j < j0) :
+    entry (rowTess f i c j0 ds) i' j = 0 := by
   induction ds generalizing j0 with
   | nil => simp [rowTess, entry]
   | cons d ds ih =>
     unfold rowTess
-    cases hp : pairOverlap c d with
+    cases hp : f c d with
     | none => exact ih (j0 + 1) (by omega)
     | some w =>
       simp only [entry, ih (j0 + 1) (by omega)]
       rw [if_neg (by omega)]; ring
 
-theorem entry_rowTess_ne (i : Nat) (c : Cell) (ds : List Cell) (j0 i' j : Nat) (h : i ≠ i') :
-    entry (rowTess i c j0 ds) i' j = 0 := by
+theorem entry_rowTess_ne (f : Cell → Cell → Option Rat) (i : Nat) (c : Cell) (ds : List Cell) (j0 i' j : Nat) (h : i ≠ i') :
+    entry (rowTess f i c j0 ds) i' j = 0 := by
   induction ds generalizing j0 with
   | nil => simp [rowTess, entry]
   | cons d ds ih =>
     unfold rowTess
-    cases hp : pairOverlap c d with
+    cases hp : f c d with
     | none => exact ih (j0 + 1)
     | some w =>
       simp only [entry, ih (j0 + 1)]
       rw [if_neg (by intro hh; exact h hh.1)]; ring
 
-theorem entry_rowTess (i : Nat) (c : Cell) (ds : List Cell) (j0 j : Nat) (d : Cell)
-    (hd : ds[j]? = some d) : entry (rowTess i c j0 ds) i (j0 + j) = ov c d := by
+theorem entry_rowTess (f : Cell → Cell → Option Rat) (i : Nat) (c : Cell) (ds : List Cell) (j0 j : Nat) (d : Cell)
+    (hd : ds[j]? = some d) : entry (rowTess f i c j0 ds) i (j0 + j) = ov f c d := by
   induction ds generalizing j0 j with
   | nil => simp at hd
   | cons d0 ds ih =>
@@ -324,34 +340,34 @@ theorem entry_rowTess (i : Nat) (c : Cell) (ds : List Cell) (j0 j : Nat) (d : Ce
     | zero =>
       simp only [List.getElem?_cons_zero, Option.some.injEq] at hd
       subst hd
-      cases hp : pairOverlap c d0 with
+      cases hp : f c d0 with
       | none =>
         simp only [ov, hp, Option.getD_none]
-        exact entry_rowTess_lt i c ds (j0 + 1) i (j0 + 0) (by omega)
+        exact entry_rowTess_lt f i c ds (j0 + 1) i (j0 + 0) (by omega)
       | some w =>
         simp only [entry, ov, hp, Option.getD_some]
-        rw [if_pos (by simp), entry_rowTess_lt i c ds (j0 + 1) i (j0 + 0) (by omega)]; ring
+        rw [if_pos (by simp), entry_rowTess_lt f i c ds (j0 + 1) i (j0 + 0) (by omega)]; ring
     | succ j =>
       simp only [List.getElem?_cons_succ] at hd
       have := ih (j0 + 1) j hd
       rw [show j0 + 1 + j = j0 + (j + 1) by omega] at this
-      cases hp : pairOverlap c d0 with
+      cases hp : f c d0 with
       | none => exact this
       | some w =>
         simp only [entry, this]
         rw [if_neg (by omega)]; ring
 
-theorem entry_tessFrom_lt (cs ds : List Cell) (k i j : Nat) (h : i < k) :
-    entry (tessFrom k cs ds) i j = 0 := by
+theorem entry_tessFrom_lt (f : Cell → Cell → Option Rat) (cs ds : List Cell) (k i j : Nat) (h : i < k) :
+    entry (tessFrom f k cs ds) i j = 0 := by
   induction cs generalizing k with
   | nil => simp [tessFrom, entry]
   | cons c cs ih =>
     simp only [tessFrom, entry_append, ih (k + 1) (by omega),
-      entry_rowTess_ne k c ds 0 i j (by omega)]
+      entry_rowTess_ne f k c ds 0 i j (by omega)]
     ring
 
-theorem entry_tessFrom (cs ds : List Cell) (k i j : Nat) (c d : Cell) (hc : cs[i]? = some c)
-    (hd : ds[j]? = some d) : entry (tessFrom k cs ds) (k + i) j = ov c d := by
+theorem entry_tessFrom (f : Cell → Cell → Option Rat) (cs ds : List Cell) (k i j : Nat) (c d : Cell) (hc : cs[i]? = some c)
+    (hd : ds[j]? = some d) : entry (tessFrom f k cs ds) (k + i) j = ov f c d := by
   induction cs generalizing k i with
   | nil => simp at hc
   | cons c0 cs ih =>
@@ -360,14 +376,157 @@ theorem entry_tessFrom (cs ds : List Cell) (k i j : Nat) (c d : Cell) (hc : cs[i
     | zero =>
       simp only [List.getElem?_cons_zero, Option.some.injEq] at hc
       subst hc
-      have := entry_rowTess k c0 ds 0 j d hd
+      have := entry_rowTess f k c0 ds 0 j d hd
       rw [Nat.zero_add] at this
-      rw [Nat.add_zero, this, entry_tessFrom_lt cs ds (k + 1) k j (by omega)]; ring
+      rw [Nat.add_zero, this, entry_tessFrom_lt f cs ds (k + 1) k j (by omega)]; ring
     | succ i =>
       simp only [List.getElem?_cons_succ] at hc
       have := ih (k + 1) i hc
-      rw [entry_rowTess_ne k c0 ds 0 (k + (i + 1)) j (by omega),
+      rw [entry_rowTess_ne f k c0 ds 0 (k + (i + 1)) j (by omega),
         show k + (i + 1) = k + 1 + i by omega, this]; ring
+
+/-! ### 3b. the tolerance branch does not fire on separated tessellations -/
+
+theorem snap_nonneg (ptol v : Rat) (hv : 0 ≤ v) : 0 ≤ snap ptol v := by
+  unfold snap; split_ifs <;> linarith
+
+theorem pairOverlap_nonneg (ptol : Rat) (c d : Cell) (w : Rat) (h : pairOverlap ptol c d = some w) :
+    0 ≤ w := by
+  unfold pairOverlap at h
+  simp only at h
+  split_ifs at h
+  split at h
+  · cases h; exact snap_nonneg _ _ (dist_nonneg _ _)
+  · cases h
+
+/-- the model's pair function is the exact one followed by the "end to end" test -/
+theorem pairOverlap_eq_map (ptol : Rat) (c d : Cell) :
+    pairOverlap ptol c d = (pairOverlapX c d).map (snap ptol) := by
+  unfold pairOverlap pairOverlapX
+  simp only
+  split_ifs
+  · rfl
+  · rfl
+  · generalize isort [c.1, c.2, d.1, d.2] = L
+    rcases L with _ | ⟨a, _ | ⟨b, _ | ⟨c', _ | ⟨d', _ | ⟨e, l⟩⟩⟩⟩⟩ <;> rfl
+
+/-- separation of two ordered cells: every difference "upper end − lower end" is `≤ 0` or `≥ ptol` -/
+def Sep (ptol : Rat) (c d : Cell) : Prop :=
+  (c.2 - c.1 ≤ 0 ∨ ptol ≤ c.2 - c.1) ∧ (c.2 - d.1 ≤ 0 ∨ ptol ≤ c.2 - d.1) ∧
+  (d.2 - c.1 ≤ 0 ∨ ptol ≤ d.2 - c.1) ∧ (d.2 - d.1 ≤ 0 ∨ ptol ≤ d.2 - d.1)
+
+theorem pairOverlap_eq_X (ptol : Rat) (c d : Cell) (hc : c.1 ≤ c.2) (hd : d.1 ≤ d.2)
+    (hs : Sep ptol c d) : pairOverlap ptol c d = pairOverlapX c d := by
+  rw [pairOverlap_eq_map]
+  cases h : pairOverlapX c d with
+  | none => rfl
+  | some w =>
+    have hw : ov pairOverlapX c d = w := by simp [ov, h]
+    obtain ⟨s1, e1⟩ := c
+    obtain ⟨s2, e2⟩ := d
+    rw [ov_eq s1 e1 s2 e2 hc hd] at hw
+    obtain ⟨h11, h12, h21, h22⟩ := hs
+    simp only [Option.map_some, Option.some.injEq]
+    subst hw
+    unfold snap rmax rmin
+    simp only at h11 h12 h21 h22
+    split_ifs <;> first
+      | rfl
+      | (rcases h11 with h | h <;> linarith)
+      | (rcases h12 with h | h <;> linarith)
+      | (rcases h21 with h | h <;> linarith)
+      | (rcases h22 with h | h <;> linarith)
+
+theorem rowTess_congr (f g : Cell → Cell → Option Rat) (i : Nat) (c : Cell) (ds : List Cell) (j0 : Nat)
+    (h : ∀ d ∈ ds, f c d = g c d) : rowTess f i c j0 ds = rowTess g i c j0 ds := by
+  induction ds generalizing j0 with
+  | nil => rfl
+  | cons d ds ih =>
+    unfold rowTess
+    rw [h d List.mem_cons_self, ih (j0 + 1) (fun d' hd' => h d' (List.mem_cons_of_mem _ hd'))]
+
+theorem tessFrom_congr (f g : Cell → Cell → Option Rat) (cs ds : List Cell) (k : Nat)
+    (h : ∀ c ∈ cs, ∀ d ∈ ds, f c d = g c d) : tessFrom f k cs ds = tessFrom g k cs ds := by
+  induction cs generalizing k with
+  | nil => rfl
+  | cons c cs ih =>
+    simp only [tessFrom]
+    rw [rowTess_congr f g k c ds 0 (h c List.mem_cons_self),
+      ih (k + 1) (fun c' hc' => h c' (List.mem_cons_of_mem _ hc'))]
+
+theorem gapInc_cons2 (ptol x y : Rat) (l : List Rat) :
+    gapInc ptol (x :: y :: l) = true ↔ x < y ∧ ptol ≤ y - x ∧ gapInc ptol (y :: l) = true := by
+  simp [gapInc, and_assoc]
+
+theorem gapInc_strictInc (ptol : Rat) (l : List Rat) (h : gapInc ptol l = true) : strictInc l = true := by
+  induction l with
+  | nil => rfl
+  | cons x l ih =>
+    cases l with
+    | nil => rfl
+    | cons y l =>
+      obtain ⟨h1, _, h3⟩ := (gapInc_cons2 ptol x y l).mp h
+      exact (strictInc_cons2 x y l).mpr ⟨h1, ih h3⟩
+
+/-- the cells of a node list: both ends are nodes, and the cell is at least `ptol` long -/
+theorem cells_nodes (ptol : Rat) (l : List Rat) (h : gapInc ptol l = true) (c : Cell) (hc : c ∈ cells l) :
+    c.1 ∈ l ∧ c.2 ∈ l ∧ c.1 < c.2 ∧ ptol ≤ c.2 - c.1 := by
+  induction l with
+  | nil => simp [cells] at hc
+  | cons x l ih =>
+    cases l with
+    | nil => simp [cells] at hc
+    | cons y l =>
+      obtain ⟨h1, h2, h3⟩ := (gapInc_cons2 ptol x y l).mp h
+      simp only [cells, List.mem_cons] at hc
+      rcases hc with rfl | hc
+      · exact ⟨by simp, by simp, h1, h2⟩
+      · obtain ⟨a1, a2, a3, a4⟩ := ih h3 hc
+        exact ⟨List.mem_cons_of_mem _ a1, List.mem_cons_of_mem _ a2, a3, a4⟩
+
+theorem sepNodes_spec (ptol : Rat) (a b : List Rat) (h : sepNodes ptol a b = true) (x y : Rat)
+    (hx : x ∈ a) (hy : y ∈ b) : x = y ∨ ptol ≤ dist x y := by
+  unfold sepNodes at h
+  rw [List.all_eq_true] at h
+  have := h x hx
+  rw [List.all_eq_true] at this
+  simpa using this y hy
+
+theorem diff_sep (ptol x y : Rat) (h : x = y ∨ ptol ≤ dist x y) :
+    x - y ≤ 0 ∨ ptol ≤ x - y := by
+  rcases h with rfl | h
+  · left; linarith
+  · unfold dist at h
+    split_ifs at h with hxy
+    · left; linarith
+    · right; exact h
+
+/-- cells of two separated tessellations are separated -/
+theorem cells_sep (ptol : Rat) (a b : List Rat) (ha : gapInc ptol a = true)
+    (hb : gapInc ptol b = true) (hs : sepNodes ptol a b = true) (c d : Cell) (hc : c ∈ cells a)
+    (hd : d ∈ cells b) : Sep ptol c d := by
+  obtain ⟨c1, c2, _, c4⟩ := cells_nodes ptol a ha c hc
+  obtain ⟨d1, d2, _, d4⟩ := cells_nodes ptol b hb d hd
+  refine ⟨Or.inr c4, ?_, ?_, Or.inr d4⟩
+  · exact diff_sep ptol c.2 d.1 (sepNodes_spec ptol a b hs c.2 d.1 c2 d1)
+  · have := sepNodes_spec ptol a b hs c.1 d.2 c1 d2
+    refine diff_sep ptol d.2 c.1 ?_
+    rcases this with h | h
+    · exact Or.inl h.symm
+    · right
+      unfold dist at h ⊢
+      split_ifs at h ⊢ <;> linarith
+
+/-- on separated tessellations the model's loop reports exactly what the exact pair function reports -/
+theorem lineTess_eq_X (ptol : Rat) (a b : List Rat) (ha : gapInc ptol a = true)
+    (hb : gapInc ptol b = true) (hs : sepNodes ptol a b = true) :
+    lineTess ptol (cells a) (cells b) = tessFrom pairOverlapX 0 (cells a) (cells b) := by
+  unfold lineTess
+  apply tessFrom_congr
+  intro c hc d hd
+  have c3 := (cells_nodes ptol a ha c hc).2.2.1
+  have d3 := (cells_nodes ptol b hb d hd).2.2.1
+  exact pairOverlap_eq_X ptol c d (le_of_lt c3) (le_of_lt d3) (cells_sep ptol a b ha hb hs c d hc hd)
 
 /-! ### 4. dense matrices -/
 
